@@ -66,6 +66,9 @@ def main(argv=None):
     ap.add_argument('--replay')
     ap.add_argument('--seed', type=int, default=None)
     ap.add_argument('--max-cases', type=int, default=None)
+    ap.add_argument('--sample', type=int, default=None,
+                    help='run a seeded random sample of N of the generated cases (development aid: a quick look at every kind of '
+                         'case a tier generates; use QV_EVIDENCE_DIR so that the partial run does not replace the evidence file)')
     args = ap.parse_args(argv)
     name = args.check.lower()
     seed = args.seed if args.seed is not None else int(os.environ.get('VERIF_SEED', '0') or 0)
@@ -90,6 +93,9 @@ def main(argv=None):
     cases = mod.gen_cases(tier, seed)
     if args.max_cases:
         cases = cases[:args.max_cases]
+    if args.sample and args.sample < len(cases):
+        import random as _random
+        cases = _random.Random(seed * 7 + 1).sample(cases, args.sample)
     timeout = getattr(mod, 'SHARD_TIMEOUT', {}).get(tier, 900 if tier == 'quick' else 7200)
     results, problems = pool.run_sharded(name, cases, shard_timeout=timeout,
                                          pyflags=getattr(mod, 'PYFLAGS', ()))
